@@ -8,6 +8,7 @@ import SaModel.Lemmas.C08Loop
 import SaModel.Lemmas.C08NotWalkable
 import SaModel.Lemmas.C08SAgree
 import SaModel.Lemmas.C08GDone
+import SaModel.Lemmas.C08Class
 /-
 C08 — tracing yields the documented mapping; from_type and from_samples agree.
 Model: SaModel/Trace/{Tracer,FromSamples,FromType}.lean.  Documented mapping: SaModel/Trace/Mapping.lean (`Spec.mapping`,
@@ -29,6 +30,10 @@ Proved for ALL inputs:
   together exercise every variant, a `Some` of every `Option`, an element of every sequence / map) — same hypotheses as
   `C08_agree`; `C08_sample_invariant` (the tracer after ANY values `xs` of the type is `sstate ty xs`);
   `C08_agree_map_as_struct_false`, `C08_agree_guess_dates_needed`: the two documented exclusions are real.
+* `C08_from_type_class`, `C08_agree_all_class`: for types that can be walked the agreement includes the error CLASS
+  (`AgreeC`, table `SameClass`, SaModel/Lemmas/C08Class.lean: budget, unknown overwrite path, wrong overwrite name,
+  null-only field, enum without data, more than 128 variants, nullable root, root not a struct);
+  `C08_not_walkable_budget_first`: for types that cannot be walked the class is NOT fixed (the budget error can come first).
 Kept as a kernel-evaluated sanity table: `C08_from_type_and_agree_on_zoo` (16 type descriptions × 10 option settings).
 -/
 namespace SaModel.Props.C08
@@ -519,6 +524,57 @@ theorem C08_agree_guess_dates_needed :
     let xs : List SVal := [.record "S" (.cons "d" 0 (.str "2020-12-24") .nil)]
     covers ty xs = true ∧ ¬ Covers o ty xs ∧ Covers {} ty xs ∧ (fromSamples .fixed o xs).isOk = true ∧
       fromSamples .fixed o xs ≠ fromType .fixed o ty := by
+  decide +kernel
+
+/-! ### agreement including the error class -/
+
+/-- `C08_from_type_class`: for EVERY type description that can be walked and ALL options, `from_type` is the documented
+result INCLUDING the error class (`AgreeC`: the same fields, or the crate's message and the documented error are a row of
+the table `SameClass`): budget too small ↔ "Could not determine schema from the type after … iterations"; unknown
+overwrite path ↔ "Overwritten fields could not be found"; overwrite with a different name ↔ "Invalid name for overwritten
+field"; null field ↔ "Encountered null only field"; enum without data ↔ "Encountered enums without data"; more than 128
+variants ↔ the `i8` conversion error; nullable root ↔ "The root type cannot be nullable"; root not a struct ↔ "No
+records found …" / "Schema tracing is not directly supported for the root data type".  The ORDER in which the
+documented result checks (budget, overwrite paths, then the fields left to right, then the root) is the crate's. -/
+theorem C08_from_type_class (c : Code) (o : Options) (ty : Ty) (hw : walkable o "$" ty = true) :
+    AgreeC (fromType c o ty) (fromTypeSpec o ty) :=
+  fromType_walkable_c c o ty hw
+
+/-- `C08_agree_all_class`: on every covering collection `from_samples` is the documented result of `from_type`, error
+class included (hypotheses as `C08_agree_all`) -/
+theorem C08_agree_all_class (c : Code) (o : Options) (ty : Ty) (xs : List SVal) (hw : walkable o "$" ty = true)
+    (hu : uniqueNames ty = true) (hs : smallEnums ty = true) (hb : passes ty ≤ o.from_type_budget)
+    (hc : Covers o ty xs) : AgreeC (fromSamples c o xs) (fromTypeSpec o ty) := by
+  rw [C08_agree_all c o ty xs hw hu hs hb hc]; exact C08_from_type_class c o ty hw
+
+/-- non-vacuity: one type per error class of `to_field` / `to_schema` / the overwrite rule, each reached by `from_type`
+with the crate's message -/
+example :
+    let sU : Ty := .struct "S" (.cons "u" .unit .nil)
+    let sE : Ty := .struct "S" (.cons "e" (.enum "E" (.unit "A" (.unit "B" .nil))) .nil)
+    let f : Field := .mk "x" .int8 false []
+    walkable {} "$" sU = true ∧ fromType .fixed {} sU = fail "Encountered null only field" ∧
+    fromType .fixed {} sE = fail "Encountered enums without data" ∧
+    fromType .fixed {} (.option sU) = fail "Encountered null only field" ∧
+    fromType .fixed { allow_null_fields := true } (.option sU) = fail "The root type cannot be nullable" ∧
+    fromType .fixed {} (.int .i8) = fail "Schema tracing is not directly supported for the root data type" ∧
+    fromType .fixed { allow_null_fields := true } .unit = fail "The root type cannot be nullable" ∧
+    fromType .fixed { overwrites := [("$.u", f)] } sU = fail "Invalid name for overwritten field" ∧
+    fromType .fixed { overwrites := [("$.v", f)] } sU = fail "Overwritten fields could not be found" ∧
+    fromType .fixed { from_type_budget := 1, allow_null_fields := true } sE =
+      fail "Could not determine schema from the type after {budget} iterations" := by
+  decide +kernel
+
+/-- for a type that CANNOT be walked the class of the error is not fixed: `enum E { A(i32), B(HashMap<..>) }` under
+`map_as_struct` with a budget of one pass fails with the budget error (pass 1 explores `A`, the loop gives up before it
+meets the map), with a larger budget with the map error; the documented result says "not traceable" for both.  This is
+why `C08_from_type` compares only ok / error for such types -/
+theorem C08_not_walkable_budget_first :
+    let ty : Ty := .struct "S" (.cons "e" (.enum "E" (.newtype "A" (.int .i32) (.newtype "B" (.map .string .bool) .nil))) .nil)
+    walkable {} "$" ty = false ∧
+    fromType .fixed { from_type_budget := 1 } ty = fail "Could not determine schema from the type after {budget} iterations" ∧
+    fromType .fixed { from_type_budget := 2 } ty = fail "Cannot trace maps as structs with `from_type`" ∧
+    fromTypeSpec { from_type_budget := 1 } ty = fail "not traceable from the type" := by
   decide +kernel
 
 /-! ### the zoo: `from_type` = documented mapping = `from_samples` on covering samples (kernel evaluation) -/
